@@ -181,6 +181,44 @@ Theorem C10_stub_manifest_index_observed :
 Proof. exact stub_manifest_index_observed. Qed.
 Print Assumptions C10_stub_manifest_index_observed.
 
+(** The loop of [init_stub_skeleton] ([stub_build]: one pass over the skeleton entries, group ->
+    create_group, dataset / attribute -> placeholder) builds exactly [stub_of]: for every
+    well-formed tree whose attributes are values and every listing of its skeleton (each path
+    once) in which every entry comes after its parent — the order of [visititems]. *)
+Theorem C10_stub_build_eq : forall (n : nat) (T : tree) (l : list (path * kind)),
+  wf_tree T -> attrs_data T -> NoDup l.*1 -> list_to_map l = skel T -> parent_first ∅ l ->
+  stub_build n l = stub_stack n (skel T).
+Proof. exact stub_build_eq. Qed.
+Print Assumptions C10_stub_build_eq.
+
+(** Attributes are values in every tree a history can produce ... *)
+Theorem C10_attrs_are_values : forall ops, attrs_data (run_t ops).
+Proof. exact attrs_data_run. Qed.
+Print Assumptions C10_attrs_are_values.
+
+(** ... so for the view of every record history the loop yields the stub the theorems above
+    speak about. *)
+Theorem C10_stub_build_history : forall (n : nat) ops (l : list (path * kind)),
+  NoDup l.*1 -> list_to_map l = skel (viewmap (run_m ops)) -> parent_first ∅ l ->
+  stub_build n l = stub_stack n (skel (viewmap (run_m ops))).
+Proof. exact stub_build_history. Qed.
+Print Assumptions C10_stub_build_history.
+
+(** The stub and the patch made on it open as a set: [IH5MFRecord] accepts the stub file [sf]
+    (flagged as stub, no predecessor) with the patch file [pf] in any listing order, and the
+    record shows the update applied to the blanked tree ([T] = the tree whose skeleton the
+    manifest holds; identifiers in use are below [next]). *)
+Theorem C10_stub_set_opens : forall (H : manifest -> N) (Hp : cont -> N) T m next r,
+  wf_tree T -> fst <$> mf_skel m = skel T -> (Chain.pid (mf_ub m) < next)%N -> Forall eb_op r.1 ->
+  exists sp sf pf,
+    stub_patch H Hp m next r = Some sp /\ files_of H Hp sp = [sf; pf] /\
+    Chain.stub_marked sf = true /\ Chain.fprev sf = None /\
+    Chain.fprev pf = Some (Chain.fpid sf) /\
+    (forall fs, Permutation [sf; pf] fs -> Chain.open_check true false fs = Some [sf; pf]) /\
+    viewmap (r_stack sp) = foldl (fun T o => (t_step T o).1) (blank T) r.1.
+Proof. exact stub_set_opens. Qed.
+Print Assumptions C10_stub_set_opens.
+
 (** Non-vacuity: a two-container record, its stub, an update through the stub. *)
 Local Open Scope string_scope.
 Definition ex_hist : list op :=
@@ -202,3 +240,25 @@ Example C10_witness :
 Proof.
   split; [repeat constructor|]. split; [apply run_refines|]. vm_compute. done.
 Qed.
+
+(** Non-vacuity of [C10_stub_build_history]: a tree with a group, a dataset and attributes on
+    the group and on the root, listed in [visititems] order. *)
+Definition ex_ops2 : list op :=
+  [ OData [(false, "y"); (false, "a")] "i:2"; OAttrSet [(false, "a")] "k" "i:5";
+    OAttrSet [] "m" "i:7" ].
+Definition ex_listing : list (path * kind) :=
+  [ ([(true, "m")], KData); ([(false, "a")], KGroup); ([(true, "k"); (false, "a")], KData);
+    ([(false, "y"); (false, "a")], KData) ].
+
+Example C10_stub_build_witness :
+  stub_build 1 ex_listing = stub_stack 1 (skel (viewmap (run_m ex_ops2))) /\
+  stub_of (skel (viewmap (run_m ex_ops2))) !! [(true, "k"); (false, "a")] = Some (RData placeholder).
+Proof.
+  split.
+  - apply C10_stub_build_history.
+    + apply (bool_decide_unpack _). by vm_compute.
+    + apply (bool_decide_unpack _). by vm_compute.
+    + cbn. repeat split; apply (bool_decide_unpack _); by vm_compute.
+  - by vm_compute.
+Qed.
+
